@@ -206,6 +206,7 @@ class World(object):
         self.last_raised = None
         self.in_api = None
         self.created_mark = 0
+        self._act_write = None
         self.disc_done = False
 
     # ------------------------------------------------------------- trace
@@ -219,8 +220,19 @@ class World(object):
         self.trace.append(kw)
         return kw
 
+    def _activation(self):
+        """A new activation (a step, or a timer firing) begins: delayed calls created from now
+        on can no longer belong to an earlier write, nor earlier ones to a later write."""
+        cr = ENV.reactor.created
+        if self._act_write is not None:
+            self._act_write["after"].extend(d.seq for d in cr[self.created_mark:]
+                                            if not isinstance(getattr(d, "func", None), HarnessCall))
+        self._act_write = None
+        self.created_mark = len(cr)
+
     def _reactor_sink(self, kind, **kw):
         if kind == "timer":
+            self._activation()
             c = kw["call"]
             if isinstance(c.func, HarnessCall):
                 self.ev("htimer", due=kw["due"])
@@ -238,13 +250,15 @@ class World(object):
 
     def _on_write(self, c, data):
         cr = ENV.reactor.created
-        new = [d for d in cr[self.created_mark:] if not isinstance(getattr(d, "func", None), HarnessCall)]
+        new = [d.seq for d in cr[self.created_mark:] if not isinstance(getattr(d, "func", None), HarnessCall)]
         self.created_mark = len(cr)
-        tseq = new[-1].seq if new else None
-        tdue = new[-1].getTime() if new and new[-1].active() else None
-        e = self.ev("write", conn=c.idx, a=c.a, data=data, phase=c.phase, tseq=tseq, tdue=tdue,
+        if self._act_write is not None:
+            self._act_write["after"].extend(new)       # created after the previous write of this activation
+        before, after = list(new), []
+        e = self.ev("write", conn=c.idx, a=c.a, data=data, phase=c.phase, before=before, after=after,
                     connected=c.connect_seen, ndraws=len(ENV.jitter.draws),
                     timeout=c.timeout, window=c.window)
+        self._act_write = e
         c.out_buf.extend(data)
         if c.broken_stream:
             return
@@ -268,7 +282,7 @@ class World(object):
             self.ev("pkt", conn=c.idx, a=c.a, raw=raw, pkt=pkt,
                     bad=bad.reason if bad else None, tier=bad.tier if bad else None,
                     phase=c.phase, w=e["i"], level=c.level, timeout=c.timeout, window=c.window,
-                    tseq=tseq, tdue=tdue,
+                    before=before, after=after,
                     draw=(ENV.jitter.draws[-1] if ENV.jitter.draws else None),
                     ndraws=len(ENV.jitter.draws), api=self.in_api)
             if pkt is not None:
@@ -642,6 +656,7 @@ class World(object):
         self.step_no += 1
         self.step_desc = s
         self.cause = _cause_of(s[0])
+        self._activation()
         self.ev("step", s=s)
         try:
             getattr(self, "s_" + s[0])(*s[1:])
@@ -649,6 +664,7 @@ class World(object):
             self.snap()
 
     def snap(self):
+        self._activation()
         calls = []
         hcalls = 0
         for c in ENV.reactor.pending():
@@ -961,7 +977,7 @@ class World(object):
                 self.step(("lose", a, "done"))
         self.ended = True
         self.step(("adv", horizon, 200000))
-        self.ev("end", unhandled=[_unh(u) for u in ENV.unhandled])
+        self.ev("end", unhandled=[_unh(u) for u in ENV.unhandled], draws=list(ENV.jitter.draws))
         ENV.reactor.sink = None
         ENV.fire_sink = None
 
